@@ -10,8 +10,11 @@ for d in sorted(glob.glob(os.path.join(ROOT, "seeded", "*", "meta.json")), key=l
     needs = re.sub(r"\s+", " ", m.get("needs", "")).strip()
     if len(summ) > 230: summ = summ[:227] + "..."
     if len(needs) > 200: needs = needs[:197] + "..."
-    res = v.get("result", "?"); det = re.sub(r"\s+", " ", v.get("detail", v.get("caught_by", ""))if isinstance(v.get("detail", ""), str) else str(v.get("caught_by")))
-    if not det and v.get("caught_by"): det = "; ".join(v["caught_by"])
+    res = v.get("result", "?")
+    if res.startswith("VIOLATION"): res = "caught"
+    det = v.get("detail") or v.get("caught_by") or ""
+    if isinstance(det, list): det = "; ".join(det)
+    det = re.sub(r"\s+", " ", det)
     if len(det) > 330: det = det[:327] + "..."
     rows.append(f"| {name} | {summ} | {needs} | **{res}** — {det} |")
 table = "| seed | change (written by an independent agent that saw only the property text) | needs | result of `./check <ID>` (quick, seed 1) on a scratch copy with the change |\n|---|---|---|---|\n" + "\n".join(rows)
